@@ -1083,6 +1083,12 @@ val optional_call_through_chain : node -> bool
 
 val k_optional_call_through_chain : node -> bool
 
+val writes_ident : char list -> node -> bool
+
+val bare_call_callee_assigned : node -> bool
+
+val k_bare_call_callee_assigned : node -> bool
+
 val known_classes : char list list -> node -> char list list
 
 val is_directive : node -> bool
@@ -1170,6 +1176,8 @@ val strip_parens : node -> node
 val erase_ok : char list -> node list -> bool -> bool -> node -> node -> bool
 
 val first_diff_nospan : node -> node -> nat list option
+
+val norm_eol : char list -> char list
 
 val norm_post : node -> node
 
@@ -1274,6 +1282,10 @@ val match_args : char list -> expected list -> node list -> char list list
 val apply_spread_args : node -> bool
 
 val apply_unexpanded_args : node -> bool
+
+val apply_extra_args : node -> bool
+
+val regex_operand : node list -> bool
 
 val has_dup_str : char list list -> bool
 
